@@ -8,25 +8,30 @@ import PugModel.JS.HeapSpec
 namespace Pug.Driver
 open Lean Pug Pug.Tpl
 
-/-- `convert` of JSON-shaped Go data (map[string]interface{}, []interface{}, string, float64/int, bool, nil) -/
-partial def convertData (j : Json) (h : Heap) : Heap × Val :=
-  match j with
-  | .null => (h, .nil)
-  | .bool b => (h, .B b)
-  | .str s => (h, .S s)
-  | .num n =>
-    let q : Rat := (n.mantissa : Rat) / ((10 ^ n.exponent : Nat) : Rat)
-    (h, .N q)
-  | .arr a =>
-    let (h, items) := a.foldl (fun (acc : Heap × List Val) x =>
-      let (h', v) := convertData x acc.1
-      (h', acc.2 ++ [v])) (h, [])
-    h.allocArr items
-  | .obj o =>
-    let (h, items) := o.toList.foldl (fun (acc : Heap × List (String × Val)) (kv : String × Json) =>
-      let (h', v) := convertData kv.2 acc.1
-      (h', acc.2 ++ [(kv.1, v)])) (h, [])
-    h.allocMap { items := items, order := [] }
+/-- `convert` of JSON-shaped Go data (map[string]interface{}, []interface{}, string, float64/int, bool, nil); recursion on the
+    fuel (total) -/
+def convertDataF : Nat → Json → Heap → Heap × Val
+  | 0, _, h => (h, .nil)
+  | fuel + 1, j, h =>
+    match j with
+    | .null => (h, .nil)
+    | .bool b => (h, .B b)
+    | .str s => (h, .S s)
+    | .num n =>
+      let q : Rat := (n.mantissa : Rat) / ((10 ^ n.exponent : Nat) : Rat)
+      (h, .N q)
+    | .arr a =>
+      let (h, items) := a.toList.foldl (fun (acc : Heap × List Val) x =>
+        let (h', v) := convertDataF fuel x acc.1
+        (h', acc.2 ++ [v])) (h, [])
+      h.allocArr items
+    | .obj o =>
+      let (h, items) := o.toList.foldl (fun (acc : Heap × List (String × Val)) (kv : String × Json) =>
+        let (h', v) := convertDataF fuel kv.2 acc.1
+        (h', acc.2 ++ [(kv.1, v)])) (h, [])
+      h.allocMap { items := items, order := [] }
+
+def convertData (j : Json) (h : Heap) : Heap × Val := convertDataF 100000 j h
 
 /-- names known to the template parser besides the engine's functions: funcmap and builtins (runtime.go, tpl_funcs.go) -/
 def builtinNames : List String :=
